@@ -7,6 +7,7 @@ The BareScript runtime
 
 import datetime
 import functools
+import operator
 
 from .library import DEFAULT_MAX_STATEMENTS, EXPRESSION_FUNCTIONS, SCRIPT_FUNCTIONS
 from .model import lint_script
@@ -273,7 +274,7 @@ def evaluate_expression(expr, options=None, locals_=None, builtins=True):
         if bin_op == '+':
             # number + number
             if isinstance(left_value, (int, float)) and isinstance(right_value, (int, float)):
-                return left_value + right_value
+                return _arithmetic(operator.add, left_value, right_value)
 
             # string + string
             elif isinstance(left_value, str) and isinstance(right_value, str):
@@ -281,22 +282,22 @@ def evaluate_expression(expr, options=None, locals_=None, builtins=True):
 
             # string + <any>
             elif isinstance(left_value, str):
-                return left_value + value_string(right_value)
+                return _arithmetic(lambda left, right: left + value_string(right), left_value, right_value)
             elif isinstance(right_value, str):
-                return value_string(left_value) + right_value
+                return _arithmetic(lambda left, right: value_string(left) + right, left_value, right_value)
 
             # datetime + number
             elif isinstance(left_value, datetime.date) and isinstance(right_value, (int, float)):
                 left_dt = value_normalize_datetime(left_value)
-                return left_dt + datetime.timedelta(milliseconds=right_value)
+                return _arithmetic(_datetime_add, left_dt, right_value)
             elif isinstance(left_value, (int, float)) and isinstance(right_value, datetime.date):
                 right_dt = value_normalize_datetime(right_value)
-                return right_dt + datetime.timedelta(milliseconds=left_value)
+                return _arithmetic(_datetime_add, right_dt, left_value)
 
         elif bin_op == '-':
             # number - number
             if isinstance(left_value, (int, float)) and isinstance(right_value, (int, float)):
-                return left_value - right_value
+                return _arithmetic(operator.sub, left_value, right_value)
 
             # datetime - datetime
             elif isinstance(left_value, datetime.date) and isinstance(right_value, datetime.date):
@@ -307,12 +308,12 @@ def evaluate_expression(expr, options=None, locals_=None, builtins=True):
         elif bin_op == '*':
             # number * number
             if isinstance(left_value, (int, float)) and isinstance(right_value, (int, float)):
-                return left_value * right_value
+                return _arithmetic(operator.mul, left_value, right_value)
 
         elif bin_op == '/':
             # number / number
             if isinstance(left_value, (int, float)) and isinstance(right_value, (int, float)):
-                return left_value / right_value
+                return _arithmetic(operator.truediv, left_value, right_value)
 
         elif bin_op == '==':
             return value_compare(left_value, right_value) == 0
@@ -335,12 +336,12 @@ def evaluate_expression(expr, options=None, locals_=None, builtins=True):
         elif bin_op == '%':
             # number % number
             if isinstance(left_value, (int, float)) and isinstance(right_value, (int, float)):
-                return left_value % right_value
+                return _arithmetic(operator.mod, left_value, right_value)
 
         else: # bin_op == '**'
             # number ** number
             if isinstance(left_value, (int, float)) and isinstance(right_value, (int, float)):
-                return left_value ** right_value
+                return _arithmetic(operator.pow, left_value, right_value)
 
         # Invalid operation values
         return None
@@ -360,6 +361,20 @@ def evaluate_expression(expr, options=None, locals_=None, builtins=True):
     # Expression group
     # expr_key == 'group'
     return evaluate_expression(expr['group'], options, locals_, builtins)
+
+
+# Helper to compute an arithmetic operation - a failed operation (e.g. division by zero, overflow) or a complex result is null
+def _arithmetic(operation, left_value, right_value):
+    try:
+        result = operation(left_value, right_value)
+    except (ArithmeticError, ValueError):
+        return None
+    return None if isinstance(result, complex) else result
+
+
+# Helper to add milliseconds to a datetime
+def _datetime_add(datetime_, milliseconds):
+    return datetime_ + datetime.timedelta(milliseconds=milliseconds)
 
 
 class BareScriptRuntimeError(Exception):
